@@ -15,6 +15,7 @@
 -/
 import Mistletoe.Model.Block
 import Mistletoe.Model.Document
+import Mistletoe.Model.Config
 import Mistletoe.Props.C07
 namespace Mistletoe.Block
 open Mistletoe Mistletoe.Py Mistletoe.Scan
@@ -304,7 +305,7 @@ theorem blockPhase_defs (cfg : Cfg) (gas : Nat) (lines : List Str) (b : Buf) (st
 end Mistletoe.Block
 
 namespace Mistletoe.Props.C07
-open Mistletoe Mistletoe.Footnotes Mistletoe.Block Mistletoe.Document
+open Mistletoe Mistletoe.Py Mistletoe.Footnotes Mistletoe.Block Mistletoe.Document
 
 /-- **The table is built from the definitions of the parse tree in document order.**  If
     `Document(lines)` returns `d`, the definitions the block phase registered (`st.defs`, in
@@ -336,11 +337,6 @@ theorem C07_position_independent (cfg₁ cfg₂ : Document.Cfg) (gas₁ gas₂ :
   rw [hb₁] at hb₁'; rw [hb₂] at hb₂'
   cases hb₁'; cases hb₂'
   rw [hf₁, hf₂, hsame]
-
-/-- the definition `append_footnotes` receives for a match: label, stripped and unescaped destination,
-    unescaped title -/
-def defOfMatch (m : FnMatch) : Def :=
-  (m.label, Unescape.escStrip false (strip m.dest), Unescape.escStrip false m.title)
 
 /-- **First in document order wins.**  If `Document(lines)` returns `d`, a reference with label `lbl`
     resolves, in `d.footnotes`, to the (unescaped) destination and title of the FIRST match, in the
@@ -374,5 +370,100 @@ theorem C07_unresolved_in_document (cfg : Document.Cfg) (gas : Nat) (lines : Lis
     intro m hm
     simpa using hno m hm
   simp [this]
+
+/-! ### Non-vacuity: a use BEFORE both definitions; the first definition sits inside a block quote
+    inside a list item; a duplicate label (other case) follows at top level; `[bar]` has no definition.
+
+    ```
+    [foo] use          line 1
+                       line 2
+    - > [Foo]: /nested 't1'      line 3
+                       line 4
+    [FOO]: /top        line 5
+                       line 6
+    [bar]              line 7
+    ```
+    Real code: `Document(text).footnotes == {'foo': ('/nested', 't1')}` (HTML renderer and Markdown
+    renderer token lists alike), `[foo]` renders as `<a href="/nested" title="t1">foo</a>`, `[bar]` stays. -/
+
+/-- the `HtmlRenderer` token lists, as regenerated from /repo (`Config.html`) -/
+def demoCfg : Document.Cfg :=
+  match Config.html with
+  | some c => c
+  | none => { block := { types := [] }, span := [] }
+
+/-- the `MarkdownRenderer` token lists, as regenerated from /repo (`Config.markdown`):
+    `LinkReferenceDefinitionBlock` and `BlankLine` in place of `Footnote` -/
+def demoCfgMd : Document.Cfg :=
+  match Config.markdown with
+  | some c => c
+  | none => { block := { types := [] }, span := [] }
+
+example : demoCfg.block.types = [.htmlBlock, .blockCode, .heading, .quote, .codeFence, .thematicBreak, .list, .table, .footnote, .paragraph] := by
+  decide +kernel
+example : demoCfgMd.block.types = [.linkRefDefBlock, .blankLine, .htmlBlock, .blockCode, .heading, .quote, .codeFence, .thematicBreak, .list, .table, .paragraph] := by
+  decide +kernel
+
+def demoLines : List Str :=
+  ["[foo] use\n", "\n", "- > [Foo]: /nested 't1'\n", "\n", "[FOO]: /top\n", "\n", "[bar]\n"].map String.toList
+
+/-- the shape of the buffer: paragraph, list [item [quote [definition]]], definition, paragraph — the
+    nested definition is two containers deep -/
+example : (match blockPhase demoCfg.block 60 demoLines with
+    | .ok (b, _) => b.entries.map (fun e => match e with
+        | .list [.mk [.quote [.footnote ms _ _] _ _ _] _ _ _ _ _ _] _ _ => ms.map (·.dest)
+        | .footnote ms _ _ => ms.map (·.dest)
+        | _ => [])
+    | .err _ => []) = [[], ["/nested".toList], ["/top".toList], []] := by decide +kernel
+
+/-- the pre-order sequence of definitions: the nested one first, the top-level duplicate second; and it
+    is the sequence the block phase registered -/
+example : (match blockPhase demoCfg.block 60 demoLines with
+    | .ok (b, st) => if st.defs = defsOfEntries b.entries then (defsOfEntries b.entries).map (fun m => (m.label, m.dest, m.title)) else []
+    | .err _ => []) =
+    [("Foo".toList, "/nested".toList, "t1".toList), ("FOO".toList, "/top".toList, [])] := by decide +kernel
+
+/-- the same under the Markdown renderer's token list (`.linkRefDefs` entries) -/
+example : (match blockPhase demoCfgMd.block 60 demoLines with
+    | .ok (b, st) => if st.defs = defsOfEntries b.entries then (defsOfEntries b.entries).map (fun m => (m.label, m.dest, m.title)) else []
+    | .err _ => []) =
+    [("Foo".toList, "/nested".toList, "t1".toList), ("FOO".toList, "/top".toList, [])] := by decide +kernel
+
+/-- the document's table has the single key `foo`, bound to the NESTED (earlier in document order)
+    definition; the use on line 1 (before both definitions) resolves to it; `[bar]` does not resolve -/
+example : (match Document.parseLines demoCfg 60 demoLines with
+    | .ok d => (d.footnotes, resolve d.footnotes "foo".toList, resolve d.footnotes "bar".toList)
+    | .err _ => ([], none, none)) =
+    ([("foo".toList, "/nested".toList, "t1".toList)], some ("/nested".toList, "t1".toList), none) := by decide +kernel
+
+example : (match Document.parseLines demoCfgMd 60 demoLines with
+    | .ok d => d.footnotes
+    | .err _ => []) = [("foo".toList, "/nested".toList, "t1".toList)] := by decide +kernel
+
+/-- `C07_table_is_document_order` and `C07_first_in_document_order` apply to the demo (the hypothesis
+    `parseLines … = .ok d` is satisfiable) -/
+example : ∃ d, Document.parseLines demoCfg 60 demoLines = .ok d ∧
+    ∃ buf st, blockPhase demoCfg.block 60 demoLines = .ok (buf, st) ∧
+      st.defs = defsOfEntries buf.entries ∧
+      d.footnotes = Document.footnotesOf (defsOfEntries buf.entries) := by
+  cases h : Document.parseLines demoCfg 60 demoLines with
+  | err e =>
+    have : (match Document.parseLines demoCfg 60 demoLines with | .ok _ => true | .err _ => false) = true := by
+      decide +kernel
+    rw [h] at this; cases this
+  | ok d => exact ⟨d, rfl, C07_table_is_document_order demoCfg 60 demoLines d h⟩
+
+/-- position independence on an instance: the same two definitions, both at top level and BEFORE the
+    use, give the same table as the demo -/
+def demoLinesFlat : List Str :=
+  ["[Foo]: /nested 't1'\n", "[FOO]: /top\n", "\n", "[foo] use\n"].map String.toList
+
+example : (match blockPhase demoCfg.block 60 demoLines, blockPhase demoCfg.block 60 demoLinesFlat with
+    | .ok (b₁, _), .ok (b₂, _) => decide (defsOfEntries b₁.entries = defsOfEntries b₂.entries)
+    | _, _ => false) = true := by decide +kernel
+
+example : (match Document.parseLines demoCfg 60 demoLines, Document.parseLines demoCfg 60 demoLinesFlat with
+    | .ok d₁, .ok d₂ => decide (d₁.footnotes = d₂.footnotes)
+    | _, _ => false) = true := by decide +kernel
 
 end Mistletoe.Props.C07
